@@ -1,0 +1,15 @@
+//go:build verif
+
+package relic
+
+import "sort"
+
+// VerifRegistered returns the registered keys, sorted (verification only).
+func VerifRegistered() []string {
+	out := make([]string, 0, len(relicCatalog))
+	for k := range relicCatalog {
+		out = append(out, string(k))
+	}
+	sort.Strings(out)
+	return out
+}
